@@ -97,6 +97,40 @@ let () =
             (fun s -> s.M.sink) (fun _ -> "")
         else failwith "encw: writer"
     | _ -> failwith "encw: args");
+  (* encwc SHIM VALUE WRITER LENS  ->  like encw, for the stream of [ser] cut into chunks of the given
+     lengths (comma separated; "-" for none): IoRechunk.to_writer_cs *)
+  reg_typed "encwc" (fun t args -> match args with
+    | [shim; v; w; lens] ->
+        let shim = (shim = "1") in
+        let v = val_of (parse_sexp v) in
+        let (chunks0, e0) = M.ser (t ()) v in
+        let stream = List.concat chunks0 in
+        let lens = if lens = "-" || lens = "" then [] else List.map int_of_string (S.split_on_char ',' lens) in
+        let rec take n l acc = if n = 0 then (List.rev acc, l) else (match l with
+          | x :: r -> take (n - 1) r (x :: acc)
+          | [] -> raise Exit) in
+        (match (try
+                  let (cs, rest) = List.fold_left (fun (cs, l) n -> let (c, r) = take n l [] in (c :: cs, r)) ([], stream) lens in
+                  if rest <> [] then None else Some (List.rev cs)
+                with Exit -> None) with
+         | None -> "rechunk-mismatch"
+         | Some cs ->
+            let fin r sink extra = (match r with
+              | M.Ok (st, e) -> werr_s e ^ " " ^ hex_of_bytes (sink st) ^ extra st
+              | M.Err (k, m) -> "model-err " ^ kind_s k ^ " " ^ msg_s m
+              | M.Panic w -> "panic " ^ string_of_n w) in
+            if w = "v" then
+              fin (M.to_writer_cs (M.vw_write_all shim) cs e0 []) (fun s -> s) (fun _ -> "")
+            else if S.length w >= 2 && S.sub w 0 2 = "b:" then
+              let cap = n_of_string (S.sub w 2 (S.length w - 2)) in
+              fin (M.to_writer_cs (M.fw_write_all shim) cs e0 { M.fsink = []; M.room = cap })
+                (fun s -> s.M.fsink) (fun s -> " room=" ^ string_of_n s.M.room)
+            else if S.length w >= 2 && S.sub w 0 2 = "s:" then
+              let sch = wsched_of (S.sub w 2 (S.length w - 2)) in
+              fin (M.to_writer_cs (M.sw_write_all shim) cs e0 { M.sink = []; M.wsched = sch })
+                (fun s -> s.M.sink) (fun _ -> "")
+            else failwith "encwc: writer")
+    | _ -> failwith "encwc: args");
   reg_typed "iolen" (fun t args -> match args with
     | [v] -> res_s string_of_n (M.object_length (t ()) (val_of (parse_sexp v)))
     | _ -> failwith "iolen: args");
